@@ -49,6 +49,14 @@ SHAPES = {
  "optres": ("Option<Result<u32, u8>>", "r.variant = match &x { None => 0, Some(Ok(_)) => 1, Some(Err(_)) => 2 }; r.payload = match x { None => 0, Some(Ok(v)) => v as u64, Some(Err(e)) => e as u64 };",
           "let (k, pv, ev): (u8, u32, u8) = kani::any(); kani::assume(k < 3);", "match k { 0 => None, 1 => Some(Ok(pv)), _ => Some(Err(ev)) }",
           'assert!(rec.variant == k && rec.payload == match k { 0 => 0, 1 => pv as u64, _ => ev as u64 }, "C02 nested Option<Result<..>> arrives with the same variants and payload");'),
+ "optsl": ("Option<&[u8]>", "r.variant = x.is_some() as u8; if let Some(sl) = x { r.ptr = sl.as_ptr() as usize; r.len = sl.len(); if r.idx < sl.len() { r.elem = sl[r.idx] as u64; } }",
+          "let arr: [u8; 4] = kani::any(); let (some, off, len): (bool, usize, usize) = kani::any(); kani::assume(off <= 4 && len <= 4 - off); let sl = &arr[off..off + len]; let (ep, el, ee) = (sl.as_ptr() as usize, sl.len(), if idx < sl.len() { sl[idx] as u64 } else { 0 });",
+          "if some { Some(sl) } else { None }",
+          'assert!(rec.variant == some as u8 && (!some || (rec.ptr == ep && rec.len == el && rec.elem == ee)), "C02 Option<&[u8]> arrives with the same variant, address, length and elements (Some(empty) stays Some)"); kani::cover!(some && el == 0, "Some(empty slice)");'),
+ "optst": ("Option<&str>", "r.variant = x.is_some() as u8; if let Some(sl) = x { r.ptr = sl.as_ptr() as usize; r.len = sl.len(); }",
+          'let text = "a\\u{df}b"; let bounds = [0usize, 1, 3, 4]; let (some, i0, i1): (bool, usize, usize) = kani::any(); kani::assume(i0 <= i1 && i1 < 4); let sl = &text[bounds[i0]..bounds[i1]]; let (ep, el) = (sl.as_ptr() as usize, sl.len());',
+          "if some { Some(sl) } else { None }",
+          'assert!(rec.variant == some as u8 && (!some || (rec.ptr == ep && rec.len == el)), "C02 Option<&str> arrives with the same variant, address and byte length (an empty Some stays Some)"); kani::cover!(some && el == 0, "Some(empty string)");'),
 }
 QUICK_SKIP = {"chr", "i128", "f64", "tup", "optres"}
 RETS = {
@@ -74,7 +82,7 @@ def gen(tier):
         for rk, recv in RECV.items():
             if tier == "quick" and rk == "v" and sh in ("sl64", "optr", "s3"):
                 continue
-            if tier == "quick" and (sh in QUICK_SKIP or (sh in ("bool", "u128", "arr", "optm") and rk != "r")):
+            if tier == "quick" and (sh in QUICK_SKIP or (sh in ("bool", "u128", "arr", "optm", "optsl", "optst") and rk != "r")):
                 continue
             name = f"A_{sh}_{rk}"
             lt = "<'a>" if False else ""
